@@ -5,4 +5,4 @@ from checks import c03
 def run(rep, tier, replay):
     return c03.run_family(rep, tier, replay, "C05", mix="steps", probes=["bt"],
                           quick=dict(maxcmd=14, maxbps=2, ncands=4, nhist=8, mixed=True, frames=True),
-                          thorough=dict(maxcmd=20, maxbps=3, ncands=6, nhist=40, mixed=True, frames=True))
+                          thorough=dict(maxcmd=20, maxbps=3, ncands=6, nhist=40, mixed=True, frames=True, nopie=True))
